@@ -207,8 +207,8 @@ func (d *Downstream) run() error {
 	eg, ctx := errgroup.WithContext(ctx)
 
 	eg.Go(func() error {
-		defer d.eventDispatcher.cond.Broadcast()
-		defer d.state.cond.Broadcast()
+		defer d.eventDispatcher.wake()
+		defer d.state.wake()
 		<-ctx.Done()
 		return nil
 	})
